@@ -252,6 +252,31 @@ func (fx *FnExec) enterLoop(fr *frame, li *loopInfo, lc *LoopContract, st *State
 			st.locals[a] = fx.freshVal(t, "loop."+a.Comment)
 		}
 	}
+	var gnames []string
+	for g := range li.modGhost {
+		gnames = append(gnames, g)
+	}
+	sort.Strings(gnames)
+	for _, g := range gnames {
+		if cur, ok := st.ghost[g].(*Term); ok {
+			st.ghost[g] = fx.c.Fresh("loop.ghost."+g, cur.Sort)
+		}
+	}
+	{
+		// objects declared outside the loop and written inside it: forget exactly their cells
+		var objs []*ssa.Alloc
+		for a := range li.modObj {
+			objs = append(objs, a)
+		}
+		sort.Slice(objs, func(i, j int) bool { return objs[i].Pos() < objs[j].Pos() })
+		for _, a := range objs {
+			if pv, ok := fr.regs[a].(PtrV); ok && pv.Kind == PObj {
+				for _, f := range fx.havocObj(st, pv.Elem, pv.Ref) {
+					f()
+				}
+			}
+		}
+	}
 	if li.modFam["*"] {
 		fx.havocAll(st)
 	} else if len(li.modFam) > 0 {
@@ -765,6 +790,17 @@ func (eng *Engine) VerifyFunc(fn *ssa.Function, opts ExecOpts) (rep *FuncReport)
 	c := fx.c
 	st := &State{pc: c.True(), locals: map[*ssa.Alloc]Val{}, heap: map[string]*Term{}, ghost: map[string]Val{}, held: map[string]*Term{}}
 	fr := &frame{fn: fn, regs: map[ssa.Value]Val{}, edgePC: map[[2]int]*Term{}, prefix: key, contract: fc, cvars: map[string]CVal{}}
+	// ghost globals
+	{
+		env0 := &CEnv{fx: fx, fr: fr, st: st, vars: map[string]CVal{}}
+		for name, gt := range eng.ghostTypes {
+			if strings.Contains(name, ".$") {
+				continue
+			}
+			s, _ := env0.sortOf(gt)
+			st.ghost[name] = c.Const("ghost0."+name, s)
+		}
+	}
 	// parameters
 	var recv Val
 	var args []Val
